@@ -287,6 +287,10 @@ pub(crate) struct Model {
     /// (channel or nick, properties) touched by state changes since the oracle last drained it:
     /// used to attribute later probe discrepancies to the operations that could have caused them
     pub touched: Vec<(String, u32)>,
+    /// burst mode only: ending a session and removing its user are two steps (see finish_teardown)
+    pub defer_teardown: bool,
+    pub pending_teardown: Vec<usize>,
+    pub pending_kill: Vec<(usize, String, String)>,
 }
 
 fn split_cmd(line: &str) -> Option<irc::Line> {
@@ -312,7 +316,7 @@ impl Model {
             ch.cfg = Some(c.clone());
             chans.insert(c.name.clone(), ch);
         }
-        Model { cfg: cfg.clone(), conns: vec![], users: BTreeMap::new(), chans, history: BTreeMap::new(), max_users: 0, server_quit: false, touched: vec![] }
+        Model { cfg: cfg.clone(), conns: vec![], users: BTreeMap::new(), chans, history: BTreeMap::new(), max_users: 0, server_quit: false, touched: vec![], defer_teardown: false, pending_teardown: vec![], pending_kill: vec![] }
     }
 
     pub(crate) fn live_conns(&self) -> usize {
@@ -435,6 +439,17 @@ impl Model {
             return;
         }
         self.conns[c].alive = false;
+        if self.defer_teardown && self.conns[c].registered {
+            // burst mode: the session's own task removes the user a little later, as a separate step
+            self.pending_teardown.push(c);
+            return;
+        }
+        self.finish_teardown(c);
+    }
+
+    /// the second half of a session's end: the user disappears from the shared state
+    pub(crate) fn finish_teardown(&mut self, c: usize) {
+        self.pending_teardown.retain(|x| *x != c);
         if self.conns[c].registered {
             if let Some(n) = self.conns[c].nick.clone() {
                 self.remove_user(&n);
@@ -2201,7 +2216,31 @@ impl Model {
         }
     }
 
+    /// burst mode: the victim's own task notices the kill a little later (it may still handle commands it
+    /// already received); this is that moment
+    pub(crate) fn deliver_kill(&mut self, c: usize) -> StepExp {
+        let mut se = StepExp::default();
+        if let Some(pos) = self.pending_kill.iter().position(|(x, _, _)| *x == c) {
+            let (_, killer, comment) = self.pending_kill.remove(pos);
+            if self.conns[c].alive {
+                se.cur = P11;
+                self.push(&mut se, c, format!("ERROR killed-by {}{}{}", killer, SEP, comment));
+                self.end_conn(c);
+            }
+        }
+        se
+    }
+
     fn kill_user(&mut self, killer: &str, victim: &str, comment: &str, se: &mut StepExp) {
+        if self.defer_teardown {
+            if let Some(v) = self.users.get(victim) {
+                // only the first kill signal counts (the server hands over a one-shot channel)
+                if !self.pending_kill.iter().any(|(x, _, _)| *x == v.conn) && self.conns[v.conn].alive {
+                    self.pending_kill.push((v.conn, killer.to_string(), comment.to_string()));
+                }
+            }
+            return;
+        }
         if let Some(v) = self.users.get(victim).cloned() {
             se.cur = P11;
             self.push(se, v.conn, format!("ERROR killed-by {}{}{}", killer, SEP, comment));
